@@ -420,7 +420,10 @@ def _proof_gate(tree: ast.Module, site: str) -> dict[str, str]:
         if not (isinstance(st, ast.If) and not st.orelse and len(st.body) == 1):
             raise TranslationBroken(site_g, f"unsupported pre-check {ast.unparse(st)[:80]}")
         t = st.test
-        if isinstance(t, ast.UnaryOp) and isinstance(t.op, ast.Not) and _is_name(t.operand, raw):
+        if (isinstance(t, ast.Compare) and len(t.ops) == 1 and isinstance(t.ops[0], ast.Is) and _is_name(t.left, raw)
+                and isinstance(t.comparators[0], ast.Constant) and t.comparators[0].value is None):
+            test = "TNone"
+        elif isinstance(t, ast.UnaryOp) and isinstance(t.op, ast.Not) and _is_name(t.operand, raw):
             test = "TFalsy"
         elif (isinstance(t, ast.Compare) and len(t.ops) == 1 and isinstance(t.ops[0], ast.In) and isinstance(t.left, ast.Constant)
               and t.left.value == "," and _is_name(t.comparators[0], raw)):
